@@ -515,14 +515,26 @@ class ResourcePeriodicallyInterrupted(RCBase):
 
     def extra_cases(self, tier):
         periods = (4, 6) if tier == "quick" else (3, 4, 5, 6, 7)
-        return [dict(period=p, vmax=False) for p in periods]
+        return [dict(period=p, vmax=False, mask=m) for p in periods for m in ("none", "start", "end", "both")]
+
+    def cases(self, tier):
+        # with an activity range only the fixed-duration meaning (no overlap) is claimed
+        return [c for c in super().cases(tier) if c["mask"] == "none" or c["ts"][0][0] == "F"]
 
     def build_constraint(self, ps, P, case, res, tasks):
         lo, hi = P.int("lo"), P.int("hi")
         P.assume(lo >= 0)
         P.assume(lo < hi)
         P.assume(hi <= case["period"])
-        return ps.ResourcePeriodicallyInterrupted(resource=res, list_of_time_intervals=[(lo, hi)], period=case["period"], offset=P.int("offset"))
+        kw = dict(resource=res, list_of_time_intervals=[(lo, hi)], period=case["period"], offset=P.int("offset"))
+        if case["mask"] in ("start", "both"):
+            P.assume(P.int("start") >= 0)
+            kw["start"] = P.int("start")
+        if case["mask"] in ("end", "both"):
+            kw["end"] = P.int("end")
+        if case["mask"] == "both":
+            P.assume(P.int("start") < P.int("end"))
+        return ps.ResourcePeriodicallyInterrupted(**kw)
 
     def meaning(self, P, ctx, case):
         lo, hi, p, off = T(P.int("lo")), T(P.int("hi")), case["period"], T(P.int("offset"))
@@ -539,7 +551,13 @@ class ResourcePeriodicallyInterrupted(RCBase):
                 work = t._duration - (hi - lo) * nmet
                 cs.append(Implies(And(cond, be > bs), work >= T(t.min_duration)))
             else:
-                cs.append(Implies(And(cond, be > bs), periodic_free(bs, be, lo, hi, p, off)))
+                # the part of the busy interval inside the activity range [start, end) meets no window
+                s_, e_ = bs, be
+                if case["mask"] in ("start", "both"):
+                    s_ = spec.zmax(bs, P.int("start"))
+                if case["mask"] in ("end", "both"):
+                    e_ = spec.zmin(be, P.int("end"))
+                cs.append(Implies(And(cond, e_ > s_), periodic_free(s_, e_, lo, hi, p, off)))
         return And(*cs)
 
     def complete_enabled(self, case):
